@@ -468,6 +468,7 @@ class Registry:
             count, item = self.iteration_domain(I, it)
             cfr.locals[nname] = count
             cfr.locals[kname] = 0
+            cfr.locals["_iter"] = it             # the value the loop runs over (it may have no name in the code)
         # 1. established
         for j, src in enumerate(spec.get("invariant", [])):
             self.prove_clause(I, f"{label}/established#{j}", self.eval_clause(I, src, cfr), "inv", cfr)
@@ -645,6 +646,7 @@ class Registry:
     min_with_key = _unsupported("min(..., key=)")
     sym_sum = _unsupported("sum over a symbolic-length sequence")
     sym_all = _unsupported("all() over a symbolic-length sequence")
+    sym_any = _unsupported("any() over a symbolic-length sequence")
     def tensor_all(self, I, x):
         """torch.all over a symbolic-length 1-d tensor: a Boolean b with (b -> every element is
         true) as a lazily instantiated universal and a Skolem witness for (not b)."""
